@@ -192,9 +192,9 @@ class _:
             elif res[k] != -1:
                 raise Fail("ismember-unmatched-not-minus-one", f"A={ra} B={rb} k={k} loc={res[k]}")
         ua, ub = _first_occurrence(ra), _first_occurrence(rb)
-        # --- intersect: indices into the de-duplicated A (first-occurrence order), in B's order
+        # --- intersect: (first-occurrence) positions in A of the distinct rows common to A and B, in B's order
         loc = tt_intersect_rows(A, B)
-        exp = [ua.index(r) for r in ub if r in ua]
+        exp = [ra.index(r) for r in ub if r in ra]
         if list(loc) != exp:
             raise Fail("intersect", f"A={ra} B={rb}: {list(loc)} != {exp}")
         # --- setdiff: for A with distinct rows, ascending positions of rows of A absent from B
@@ -203,6 +203,12 @@ class _:
             exp = [i for i, r in enumerate(ra) if r not in rb]
             if list(d) != exp:
                 raise Fail("setdiff", f"A={ra} B={rb}: {list(d)} != {exp}")
+        else:
+            # repeated rows in A: one (first-occurrence) position per distinct row of A that is absent from B, ascending
+            d = tt_setdiff_rows(A, B)
+            exp = sorted({ra.index(r) for r in ra if r not in rb})
+            if list(d) != exp:
+                raise Fail("setdiff-repeated-rows", f"A={ra} B={rb}: {list(d)} != {exp}")
         # --- union: exactly the distinct rows of A and B, each once
         if len(ra) or len(rb):
             u = tt_union_rows(A, B)
